@@ -225,6 +225,10 @@ def _fix_r(case, draw):
 
 case_xpath = st.composite(lambda draw: _fix_r(draw(_case_xpath()), draw))()
 
+def _ymd(v):
+    return v['y'], v['mo'], v['d']
+
+
 _DUR_LEX_KINDS = ['canon', 'canon', 'hours', 'minutes', 'months', 'seconds', 'padded']
 
 
@@ -241,12 +245,19 @@ def _case_duration(draw):
     m2, us2 = one()
     if draw(st.integers(0, 5)) == 0:
         m2, us2 = m1, us1
-    elif kind == 'duration' and draw(st.integers(0, 2)) == 0:
-        # months against about as many days: the XSD order is partial here (P1M <> P30D)
-        m1 = draw(st.integers(-30, 30))
-        days = abs(m1) * 30 + abs(m1) * 7 // 16 + draw(st.integers(-3, 3))
-        m2, us2 = 0, (max(days, 0) * 86400 * 10 ** 6 + draw(st.sampled_from([0, 0, 1, 43200 * 10 ** 6]))) * (-1 if m1 < 0 else 1)
-        us1 = 0
+    elif kind == 'duration' and draw(st.booleans()):
+        # more months against fewer months plus about as many days: the XSD order is partial here (P1M <> P30D,
+        # P8M <> P6M60D) and is decided by single reference dateTimes; aim at the boundaries of the reference spans
+        ma, mb = sorted([draw(st.integers(0, 40)), draw(st.integers(0, 40))])
+        spans = [cal.days_from_civil(*_ymd(cal.add_months(r, mb))) - cal.days_from_civil(*_ymd(cal.add_months(r, ma)))
+                 for r in cal._DUR_REFS]
+        span = draw(st.sampled_from([min(spans) - 1, min(spans), max(spans), max(spans) + 1, (min(spans) + max(spans)) // 2]))
+        extra = max(span * 86400 * 10 ** 6 + draw(st.sampled_from([-43200 * 10 ** 6, -1, 0, 0, 1, 43200 * 10 ** 6])), 0)
+        base = draw(st.sampled_from([0, 0, 0, 1, 5 * 86400 * 10 ** 6]))
+        sg = draw(st.sampled_from([1, 1, -1]))
+        m1, us1, m2, us2 = mb * sg, base * sg, ma * sg, (base + extra) * sg
+        if draw(st.booleans()):
+            m1, us1, m2, us2 = m2, us2, m1, us1
     n = draw(st.sampled_from([[1, 1], [2, 1], [3, 1], [7, 1], [-1, 1], [-3, 1], [3, 2], [1, 4], [5, 2], [10, 1],
                               [1000, 1], [-7, 2], [1, 8]]))
     return {'kind': kind, 'm1': m1, 'us1': us1, 'm2': m2, 'us2': us2, 'n': n,
@@ -1397,8 +1408,8 @@ def selftest():
 
 
 _PLAN = {  # check: (quick shards, quick n, thorough shards, thorough n)
-    'value': (3, 9000, 3, 120000), 'arith': (4, 7000, 4, 100000), 'order': (3, 7000, 3, 100000),
-    'xpath': (5, 2500, 5, 40000), 'duration': (1, 3000, 1, 40000),
+    'value': (3, 8000, 3, 110000), 'arith': (4, 6000, 4, 80000), 'order': (3, 6000, 3, 80000),
+    'xpath': (5, 2500, 5, 35000), 'duration': (1, 4000, 1, 50000),
 }
 
 
